@@ -142,6 +142,24 @@ def natural_round_trip(ctx, sig, py, little, off, case):
                    {'sig': sig, 'in': repr(py), 'out': repr(vals), 'little': little, 'offset': off}, case)
 
 
+INT_BOUNDS = [0, 1, -1, 127, 128, 255, 256, -129, 2**15 - 1, 2**15, -2**15, -2**15 - 1, 2**16 - 1, 2**16,
+              2**31 - 2, 2**31 - 1, 2**31, 2**31 + 1, -2**31 + 1, -2**31, -2**31 - 1, -2**31 - 2, 2**32 - 1, 2**32, 2**32 + 1,
+              2**63 - 2, 2**63 - 1, -2**63 + 1, -2**63]
+
+
+def plain_integer_boundaries(ctx):
+    shapes = [lambda n: n, lambda n: [n], lambda n: [n, n], lambda n: (n,), lambda n: ('t', n), lambda n: {'k': n},
+              lambda n: {'k': [n]}, lambda n: [[n]], lambda n: ('s', [n], {'d': n})]
+    for n in INT_BOUNDS:
+        for mk in shapes:
+            for sig, wrap in (('v', lambda c: [c]), ('a{sv}', lambda c: [{'Size': c}]), ('(vi)', lambda c: [(c, 5)]),
+                              ('av', lambda c: [[c, 'x']])):
+                for little in (True, False):
+                    natural_round_trip(ctx, sig, wrap(mk(n)), little, 0 if little else 5,
+                                       {'stream': 'int-bounds', 'value': n})
+                    ctx.count('plain_integer_boundary_cases')
+
+
 def _plain(v):
     if isinstance(v, (list, tuple)):
         return [_plain(x) for x in v]
@@ -222,6 +240,10 @@ def run(ctx):
         sig, py = r.choice([('v', [content]), ('a{sv}', [{'a': content, 'b': 7}]), ('(vi)', [(content, 5)])])
         natural_round_trip(ctx, sig, py, r.random() < 0.5, r.choice([0, 1, 4, 7]), {'stream': 'natural', 'idx': idx})
     ctx.count('natural_variant_cases', i + 1)
+    # plain (unwrapped) Python integers at every range boundary inside variants - alone, in lists, tuples and dictionaries:
+    # all of them are conforming values of 'v' (INT32 when they fit, INT64 otherwise)
+    if si == 0:
+        plain_integer_boundaries(ctx)
     ctx.note('level_monitor', {'marshal_levels_checked': _mon['marshal_levels'],
                                'unmarshal_levels_checked': _mon['unmarshal_levels'],
                                'skipped_unexpected_shape': _mon['skipped']})
@@ -234,7 +256,9 @@ def replay(ctx, rp):
     install_monitors()
     case = rp['case']
     seed = rp.get('seed', 0)
-    if case['stream'] == 'enum':
+    if case['stream'] == 'int-bounds':
+        plain_integer_boundaries(ctx)
+    elif case['stream'] == 'enum':
         r = CC.case_rng(seed, 'enum', '%d/%s/%d' % (case['idx'], case['little'], case['off']))
         g = gen.Gen(r, max_depth=2)
         round_trip(ctx, case['sig'], g.values(case['sig']), case['little'], case['off'], r, case)
